@@ -680,7 +680,9 @@ fn left_recursion<'a, 'i: 'a>(rules: HashMap<String, &'a ParserNode<'i>>) -> Vec
                         &mut vec![trace.last().unwrap().clone()],
                     )
                 {
-                    check_expr(rhs, rules, trace)
+                    // `lhs` may match without consuming input: both what it calls first
+                    // and what `rhs` calls first are reached at the same position.
+                    check_expr(lhs, rules, trace).or_else(|| check_expr(rhs, rules, trace))
                 } else {
                     check_expr(lhs, rules, trace)
                 }
@@ -694,6 +696,12 @@ fn left_recursion<'a, 'i: 'a>(rules: HashMap<String, &'a ParserNode<'i>>) -> Vec
             ParserExpr::PosPred(ref node) => check_expr(node, rules, trace),
             ParserExpr::NegPred(ref node) => check_expr(node, rules, trace),
             ParserExpr::Push(ref node) => check_expr(node, rules, trace),
+            ParserExpr::RepExact(ref node, _)
+            | ParserExpr::RepMin(ref node, _)
+            | ParserExpr::RepMax(ref node, _)
+            | ParserExpr::RepMinMax(ref node, _, _) => check_expr(node, rules, trace),
+            #[cfg(feature = "grammar-extras")]
+            ParserExpr::NodeTag(ref node, _) => check_expr(node, rules, trace),
             _ => None,
         }
     }
